@@ -362,3 +362,29 @@ CHECKS["C14"] = dict(
     level_text="exploration over generated programs: each generated interface is driven by sampled call sequences, a selector/argument cross product and the hostile-request catalogue; every call is decided exactly from the handler log, the byte counters and an independent decode of both directions.",
     level_note="the loopback transport is the harness' own (documented Reader/Writer interface); the out-parameter overload of Invoke (no return statement) is not used",
     assumptions=[])
+
+
+# ------------------------------------------------------------------ mt engine (C19)
+def gen_mt(prop, tier, seed):
+    import typegen
+    d = os.path.join(BUILD, "gen", "mt")
+    srcs = typegen.generate_mt(d)
+    return d, srcs
+
+
+ENGINE_KIND["mt"] = "C++ harness built with g++ -fsanitize=thread: N threads on their own objects (codec round trips, writer/reader primitives, value types, RPC loopback, SipHash) + ThreadLocal monitor; sequential-equivalence digests; TSan log parsing"
+CHECKS["C19"] = dict(
+    engine="mt", flavour="tsan", gen=gen_mt, sources=["engines/mt/main.cpp"], flags=["-DVF_OPS_FEW"], level="exploration", max_workers=4,
+    env={"TSAN_OPTIONS_EXTRA": "exitcode=0"},
+    rule=("round = N in {2,4,8,16} threads released from a barrier, each running on its own objects a seeded mix of: round trips of 12 corpus types through Log/Pedantic/Stream writers and Pedantic/Buffer/Stream/chunked/Bounded/Log "
+          "readers incl. a table read by another version, writer/reader primitives incl. Skip with a thread-specific padding value on Stream/Pedantic/Constexpr/Bounded writers, Variant/Optional/Result operations, SipHash, "
+          "RPC calls over a private loopback, and ThreadLocal construct/Initialize/Get/write/Clear on 6 (T, Slot) types shared by name (thread-unique values; some slots left initialised at thread exit; threads park at a barrier "
+          "while the addresses of all live (thread, slot) pairs are audited). Random yields / sub-20us sleeps between library calls only. Monitors: ThreadSanitizer (reports de-duplicated from its log), per-thread result "
+          "digest == digest of the same work run one thread at a time, ThreadLocal assertions (first initialisation wins, fresh thread starts empty, no cross-thread / cross-slot value, Clear clears). distinct = hash(interleaving "
+          "signature of operation-boundary tickets, round); the number of distinct signatures observed is reported."),
+    floor={"quick": 150, "thorough": 3000},
+    require_counters=["c19_rounds", "c19_threads_run", "c19_operation_boundaries", "c19_threadlocal_addresses_audited", "c19_distinct_interleaving_signatures"],
+    technique="ThreadSanitizer + sequential-equivalence digests + ThreadLocal shadow assertions over barrier-released stress rounds with injected yields",
+    level_text="exploration over schedules: each round is one observed interleaving; TSan decides races on the accesses that occurred, digests decide result equivalence, the ThreadLocal monitor decides privacy per round. Absence of reports is 'no race on K rounds with S distinct interleavings', not a proof.",
+    level_note="TSan only sees interleavings that occur and synchronisation it intercepts; thread-local storage of exited threads is legitimately reused, so addresses are compared among concurrently live threads only",
+    assumptions=[])
